@@ -33,6 +33,38 @@ def says_subset(c, is_small, is_big):
     return False
 
 
+def node_key_ok(S, F, st, v, want_quals, want_main):
+    """Is the node handed out on this path the node of (want_quals, want_main)?  A node built (or found in the table) on this
+    path is read through its accessors; a node that existed before (a remembered earlier answer) must be tied to the key by the
+    path condition: its qualifiers equal want_quals and its main variant is want_main.  Returns (ok, description)."""
+    node = v[1] if isinstance(v, tuple) and v and v[0] == 'addr' else v
+    if isinstance(node, tuple) and node and node[0] == 'obj' and node[1] in st.heap:
+        cls = st.heap[node[1]].cls
+        try:
+            mv = S.run(F.final_overrider(cls, [e['method'] for e in F.rec[cls]['final_overriders'] if e['name'] == 'second'][0]), this=node, args=[], state=st.fork())
+            qv = S.run(F.final_overrider(cls, [e['method'] for e in F.rec[cls]['final_overriders'] if e['name'] == 'first'][0]), this=node, args=[], state=st.fork())
+        except (Unsupported, IndexError, KeyError):
+            return False, 'a node whose key cannot be read'
+        main = mv[0][2] if len(mv) == 1 else None
+        quals = strip_value(qv[0][2]) if len(qv) == 1 else None
+        ok = S.same(main, want_main, st) is True and (quals == want_quals or (isinstance(quals, tuple) and isinstance(want_quals, tuple) and quals[:2] == ('op', '|')
+                                                                               and want_quals[:2] == ('op', '|') and set(quals[2:]) == set(want_quals[2:])))
+        return ok, f'a node with qualifiers {contracts.render(quals, st, {})} over {contracts.render(main, st, {})}'
+    # a pre-existing node X: what does the path condition say about it?
+    x = node
+    try:
+        qf = [k for k in F.fn if k.startswith('ipr::Basic_binary<ipr::Qualifiers, const ipr::Type &>::first() const')][0]
+        sf = [k for k in F.fn if k.startswith('ipr::Basic_binary<ipr::Qualifiers, const ipr::Type &>::second() const')][0]
+    except IndexError:
+        qf = 'ipr::Basic_binary<ipr::Qualifiers, const ipr::Type &>::first() const'
+        sf = 'ipr::Basic_binary<ipr::Qualifiers, const ipr::Type &>::second() const'
+    tq = S.truth(('op', '==', ('vcall', qf, x, ()), want_quals), st)
+    if tq is None:
+        tq = S.truth(('op', '==', strip_value(('vcall', qf, x, ())), want_quals), st)
+    tm = S.truth(('op', '==', ('addr', ('vcall', sf, x, ())), ('addr', want_main)), st)
+    return (tq is True and tm is True), f'the earlier node {contracts.render(x, st, {})[:60]}, which the path condition ties to qualifiers={tq}, main variant={tm}'
+
+
 def strip_value(t):
     while isinstance(t, tuple) and t and t[0] == 'castto':
         t = t[2]
@@ -133,6 +165,15 @@ def run(ck, F, prefix='C11'):
                      'whose condition (' + contracts.render_conds(st.conds, st, {})[:160] + ') does not say that q is contained in T.qualifiers(): '
                      'the union q | T.qualifiers() is a different set, hence a different node', loc=f['loc'], fn=f['id'])
             continue
+        if not good and not (v == ('param', 1)):
+            # the merged request answered directly (iterative form, a remembered answer): the node must be the node of
+            # (q | T.qualifiers(), T.main_variant())
+            QF = 'ipr::Basic_binary<ipr::Qualifiers, const ipr::Type &>::first() const'
+            SF = 'ipr::Basic_binary<ipr::Qualifiers, const ipr::Type &>::second() const'
+            ok2, desc = node_key_ok(S, F, st, v, ('op', '|', ('param', 0), ('vcall', QF, ('param', 1), ())), ('vcall', SF, ('param', 1), ()))
+            ck.check(R2, f'operand that is Qualified/path{i}', ok2, 'get_qualified(q, T) for a Qualified T hands out ' + desc +
+                     ' instead of the node of (q | T.qualifiers(), T.main_variant())', loc=f['loc'], fn=f['id'])
+            continue
         if good:
             q, mv = strip_value(v[3][0]), v[3][1]
             qs = [x for x in (q[2], q[3])] if q[0] == 'op' and q[1] == '|' else []
@@ -149,9 +190,16 @@ def run(ck, F, prefix='C11'):
                 loc=f['loc'], fn=f['id'])
     examined = any(c == ISA for st, v in rets_all for c, _val in st.conds)
     rets = [(st, v) for st, v in rets_all if (ISA, False) in st.conds or not examined]
-    if len(rets) != 1:
-        raise AnalysisBroken(f'{GQ}: {len(rets)} returning paths for an operand that is not Qualified')
-    st1, v1 = rets[0]
+    built = [(st, v) for st, v in rets if isinstance(v if v[0] == 'obj' else v[1], tuple) and (v if v[0] == 'obj' else v[1])[0] == 'obj']
+    for j, (stx, vx) in enumerate(rets):
+        if (stx, vx) in built[:1]:
+            continue
+        ok2, desc = node_key_ok(S, F, stx, vx, ('param', 0), ('param', 1))
+        ck.check(R2, f'operand that is not Qualified/other path {j}', ok2, 'get_qualified(q, T) on an unqualified T hands out ' + desc +
+                 ' instead of the node of (q, T)', loc=f['loc'], fn=f['id'])
+    if len(built) < 1:
+        raise AnalysisBroken(f'{GQ}: no path builds the node of (q, T) for an operand that is not Qualified')
+    st1, v1 = built[0]
     node1 = v1 if v1[0] == 'obj' else v1[1]
     a1 = contracts.observe(S, F, st1, node1, {node1[1]: 'R'}, accessor_filter=lambda n: n in ('qualifiers', 'main_variant'))
     ck.check(R2, 'operand that is not Qualified', a1 == {'qualifiers': 'P0', 'main_variant': 'P1'},
